@@ -2,6 +2,7 @@
 (results, which calls of the user functions happened, exceptions, timing in virtual seconds, liveness).
 They never look at mpire internals except the documented control snapshot used by C06."""
 import collections
+import json
 import math
 
 from harness.detsim.scenario import value_of
@@ -45,6 +46,14 @@ def ref_chunks(op, n_jobs):
                                                     op.get('chunk_size'), op.get('n_splits'), None, False, None, None, None, None, None)
         chunks = [list(c) for c in chunk_tasks(data, n_tasks, cs, op.get('n_splits'))]
     return chunks, None
+
+
+def _vcount(xs):
+    """multiset of result values (values can be lists when something went wrong: count them by their JSON text)"""
+    out = collections.Counter()
+    for x in (xs if isinstance(xs, (list, tuple)) else [xs]):
+        out[x if isinstance(x, (int, str, bool)) or x is None else json.dumps(x, sort_keys=True, default=str)] += 1
+    return out
 
 
 def check_op(sc, obs, opi, add):
@@ -102,10 +111,10 @@ def check_op(sc, obs, opi, add):
                                                          'got': res[bad:bad + 3], 'expected': exp[bad:bad + 3]})
         else:
             res = [tuple(x) if isinstance(x, list) else x for x in res]
-            if collections.Counter(res) != collections.Counter(exp):
+            if _vcount(res) != _vcount(exp):
                 add('C01', 'unordered_same_multiset', {'len_got': len(res), 'len_expected': len(exp),
-                                                       'missing': sorted((collections.Counter(exp) - collections.Counter(res)).elements())[:5],
-                                                       'unexpected': sorted((collections.Counter(res) - collections.Counter(exp)).elements())[:5]})
+                                                       'missing': sorted((_vcount(exp) - _vcount(res)).elements(), key=str)[:5],
+                                                       'unexpected': sorted((_vcount(res) - _vcount(exp)).elements(), key=str)[:5]})
         badconv = [c[5] for c in tasks if not c[8]]
         if badconv:
             add('C01', 'unpack_convention', {'elem': op.get('elem', 'scalar'), 'tasks': badconv[:5]})
@@ -116,7 +125,7 @@ def check_op(sc, obs, opi, add):
         if not numpy_in:
             if op['op'] == 'imap' and res != exp[:len(res)]:
                 add('C01', 'imap_prefix', {'got': res[:10], 'expected': exp[:len(res)][:10]})
-            if op['op'] == 'imap_unordered' and (collections.Counter(res) - collections.Counter(exp)):
+            if op['op'] == 'imap_unordered' and (_vcount(res) - _vcount(exp)):
                 add('C01', 'unordered_sub_multiset', {'got': res[:10]})
 
     # ---- C11 / C12 / C13 per instance ----
@@ -298,7 +307,7 @@ def check_failure_op(sc, obs, opi, add, latency_bound=None):
         if op.get('input') != 'nd':
             if op['op'] == 'imap' and ys != exp[:len(ys)]:
                 add('C04', 'yielded_before_raising_correct', {'yielded': ys[:10]})
-            if op['op'] == 'imap_unordered' and (collections.Counter(ys) - collections.Counter(exp)):
+            if op['op'] == 'imap_unordered' and (_vcount(ys) - _vcount(exp)):
                 add('C04', 'yielded_before_raising_correct', {'yielded': ys[:10]})
     if latency_bound is not None:
         tfail = min((c[6] for c in obs.get('calls', []) if c[0] == opi and c[7] is None), default=None)
@@ -327,6 +336,12 @@ def check_apply_op(sc, obs, opi, add):
         cbs[c[1]].append(c)
     for (i, kind, val, ready) in o['apply']:
         slow = to is not None and float(dur.get(str(i), 0)) > to
+        if f.get('init') == 'all' and op.get('init') and any(c[0] == opi and c[1] == 'init' for c in obs.get('calls', [])):
+            want = ('raise', expected_exc_types(op))       # worker_init fails in every worker: every task reports that error
+            if kind == 'raise' and val == want[1]:
+                if len(cbs[i]) != 1 or cbs[i][0][0] != 'ecb':
+                    add('C09', 'exactly_one_callback', {'task': i, 'callbacks': cbs[i]})
+                continue
         if i in f.get('at', ()):
             want = ('raise', expected_exc_types(op))
         elif slow:
